@@ -41,8 +41,8 @@ RULE = (
     'NUL-free strings and times >= 0, unsorted input order, given as list or dict, versions 2 and 3; re-saved both via '
     'the raw-copy path and after every entry was parsed. '
     'sndscript: 1-4 sounds, every Channel/Level/Pitch member or numbers, single values and min/max ranges, 0..4 waves '
-    'with sound characters, operator stacks (None, empty, nested); names and wave paths contain no quote, backslash, '
-    'brace or line break (written unescaped); names unique case-insensitively; volume/pitch enum constants compare by '
+    'with sound characters, operator stacks (None, empty, nested); names and wave paths contain no quote, backslash '
+    'or line break (written unescaped; whether backslash is an escape is the caller\'s parse option); names unique case-insensitively; volume/pitch enum constants compare by '
     'their numeric value where they are numbers (Pitch); soundentry version 2 == forced or any non-empty stack. '
     'VMT: shader is a bare identifier, 0-6 parameters, 0-2 fallback blocks (nested), 0-3 proxies; strings are '
     'single-line without double quote (VMT has no escapes) but with backslash, TAB, apostrophe, brackets, braces; '
@@ -51,10 +51,12 @@ RULE = (
     'color and int/float array attributes with mixed-case names, children referencing systems of the same file; '
     'written through Particle.export -> Element.export_binary (versions 2-5) or export_kv2 and read back with '
     'Particle.parse(file); attribute names avoid the reserved list names and functionName; element UUIDs come from a '
-    'harness counter so second-generation bytes are comparable. SMD: 1-10 bones (dict order shuffled in half of the '
+    'harness counter so second-generation bytes are comparable; the reader mirrors each element name into '
+    'options["name"], which the comparer treats as derived data. SMD: 1-10 bones (dict order shuffled in half of the '
     'cases), 0-3 frames, 0-5 triangles with 1-4 weight links; floats have <= 6 decimals, rotations are degrees(r) for '
-    'a 6-decimal r in [0, 2*pi), single links weigh 1.0, names are ASCII without quote # ; / backslash, materials have '
-    'no extension, are not "end" and have no edge blanks. '
+    'a 6-decimal r in [0, 2*pi), single links weigh 1.0, bone names are ASCII without quote # ; / backslash (quote '
+    'ends the name, the others start a comment for the reader), materials are ASCII without . # ; // (the reader '
+    'drops a file extension and comments), are not "end" and have no edge blanks or trailing slash. '
     'Samples: every .vcd/.bvcd under tests/test_choreo, tests/test_particles/sample.pcf, every .vmt under tests/ '
     '(test_vmt, test_vtf) are parsed, re-exported, re-parsed and compared (no cmdseq, soundscript or SMD sample '
     'exists in the tree). Non-trivial = the value has >= 1 optional block set (tags/ramp/subclass event; ensure_file '
